@@ -344,6 +344,18 @@ func runScenario(c *common, lg *tracelog.Log, rng *rand.Rand, idx int, sc *scena
 	}
 	a.Others["readme.txt"] = []byte("bystander")
 	a.Others["other/deep/file.bin"] = []byte{9, 9, 9}
+	{
+		// what Create did: it may only create <base>.par2 and <base>.volNN+MM.par2
+		unexpected := []string{}
+		for _, p := range a.CreateCreated {
+			if p != a.Index && a.VolB[p] == nil {
+				unexpected = append(unexpected, p)
+			}
+		}
+		lg.Emit(tracelog.M{"ev": "bigop", "op": "create", "scn": idx, "desc": sc.desc, "created": a.CreateCreated, "created_unexpected": unexpected,
+			"changed_by_create": a.CreateChanged, "res": tracelog.M{"err": ""}, "writes": []string{}, "outside": []string{}, "changed_ok": true,
+			"n": 0, "nsurv": 0, "nocc": 0, "exps": []int{}})
+	}
 	ps := &protSet{S: sc.s, Order: a.Order, Data: sc.prot}
 	disk := map[string][]byte{}
 	for _, nme := range sc.names {
